@@ -487,3 +487,79 @@ Proof.
   - intros x Hx. left. apply Hids. exact Hx.
   - pose proof (orphans_same_ids c c ms i m F (iv_names _ _ Hinv) G eq_refl). lia.
 Qed.
+
+(* ---- pieces for the steps that change the coordinator's state ---- *)
+Lemma disj_updm : forall c ms i m F, inv_facts c ms -> getm i ms = Some m -> m_live m = true ->
+  (forall m0, m_name (F m0) = m_name m0) ->
+  (forall x, has_id (F m) x -> has_id m x \/ (forall m0, In m0 ms -> m_name m0 <> i -> ~ has_id m0 x)) ->
+  pairwise disjoint_m (updm i F ms) = true.
+Proof.
+  intros c ms i m F [Hwc Hwm Hcoh Hnd Hdj] G L Hn Hids. destruct (getm_In i ms m G) as [Hin Hname].
+  apply pairwise_of_all; [|rewrite (updm_names i F ms Hn); exact Hnd].
+  intros a b Ha Hb Hab. apply in_updm in Ha. apply in_updm in Hb.
+  destruct Ha as [a0 [Ha0 [[Ena ->]|[Ena ->]]]], Hb as [b0 [Hb0 [[Enb ->]|[Enb ->]]]].
+  - exfalso. apply Hab. rewrite !Hn. congruence.
+  - rewrite (getm_unique i ms m Hnd G a0 Ha0 Ena). intros _ Lb x Hx Hxb.
+    destruct (Hids x Hx) as [Hm|Hfresh].
+    + assert (D : disj m b0) by (apply (pairwise_all ms Hdj Hnd); [exact Hin | exact Hb0 | congruence]). exact (D L Lb x Hm Hxb).
+    + exact (Hfresh b0 Hb0 Enb Hxb).
+  - rewrite (getm_unique i ms m Hnd G b0 Hb0 Enb). intros La _ x Hxa Hx.
+    destruct (Hids x Hx) as [Hm|Hfresh].
+    + assert (D : disj a0 m) by (apply (pairwise_all ms Hdj Hnd); [exact Ha0 | exact Hin | congruence]). exact (D La L x Hxa Hm).
+    + exact (Hfresh a0 Ha0 Ena Hxa).
+  - apply (pairwise_all ms Hdj Hnd); [exact Ha0 | exact Hb0 | exact Hab].
+Qed.
+
+Lemma pairwise_map_same : forall (g : member -> member) ms,
+  (forall m, m_live (g m) = m_live m /\ m_id (g m) = m_id m /\ m_ph (g m) = m_ph m /\ m_focus (g m) = m_focus m) ->
+  pairwise disjoint_m (map g ms) = pairwise disjoint_m ms.
+Proof.
+  intros g ms Hg.
+  assert (Hd : forall a b, disjoint_m (g a) (g b) = disjoint_m a b).
+  { intros a b. destruct (Hg a) as (A1 & A2 & A3 & A4). destruct (Hg b) as (B1 & B2 & B3 & B4).
+    unfold disjoint_m, bound, focus_of. rewrite A1, A2, A3, A4, B1, B2, B3, B4. reflexivity. }
+  induction ms as [|a r IH]; [reflexivity|]. cbn [map pairwise]. rewrite IH. f_equal.
+  clear IH. induction r as [|b r IH]; [reflexivity|]. cbn [map forallb]. rewrite IH, Hd. reflexivity.
+Qed.
+
+Lemma epoch_general : forall c c' ms (g : member -> member),
+  inv_facts c ms -> (forall m0, m_name (g m0) = m_name m0) -> wf_c c' = true ->
+  (forall m0, In m0 ms -> wf_m c' (g m0) = true /\ coh c' (g m0) = true) ->
+  pairwise disjoint_m (map g ms) = true ->
+  (sum (map (tw c') (map g ms)) + count_orphans (mkS c' (map g ms))) * 4 + erank c' < trig (mkS c ms) * 4 + erank c ->
+  inv_facts c' (map g ms) /\ mu (mkS c' (map g ms)) < mu (mkS c ms).
+Proof.
+  intros c c' ms g Hinv Hn Hwc' Hall Hpw Htr.
+  assert (Hinv' : inv_facts c' (map g ms)).
+  { constructor; [exact Hwc' | | | |exact Hpw].
+    - intros m' H'. apply in_map_iff in H'. destruct H' as [m0 [<- H0]]. apply (Hall m0 H0).
+    - intros m' H'. apply in_map_iff in H'. destruct H' as [m0 [<- H0]]. apply (Hall m0 H0).
+    - rewrite map_map. rewrite (map_ext (fun x => m_name (g x)) m_name Hn). exact (iv_names _ _ Hinv). }
+  split; [exact Hinv'|]. unfold mu, trig. cbn [s_c s_ms]. rewrite map_length.
+  apply mu_cmp; [|exact Htr].
+  rewrite <- (map_length g ms). apply sum_mp_bound; [exact Hwc' | apply (iv_wfm _ _ Hinv')].
+Qed.
+
+(* orphans when the ids of the table stay (or one bound id is added) and nobody loses a binding *)
+Lemma orphans_mono : forall c c' ms (g : member -> member) extra,
+  ids (c_ents c') = ids (c_ents c) ++ extra ->
+  (forall x, In x extra -> exists m0, In m0 ms /\ bound (g m0) x = true) ->
+  (forall m0 x, In m0 ms -> bound m0 x = true -> bound (g m0) x = true) ->
+  count_orphans (mkS c' (map g ms)) <= count_orphans (mkS c ms).
+Proof.
+  intros c c' ms g extra Hids Hex Hb. rewrite !count_orphans_ids. cbn [s_c s_ms]. rewrite Hids, filter_app, app_length.
+  assert (E : forall ex, (forall x, In x ex -> exists m0, In m0 ms /\ bound (g m0) x = true) -> filter (orph (map g ms)) ex = []).
+  { induction ex as [|x r IH]; intros Hx; [reflexivity|]. cbn [filter]. destruct (Hx x (or_introl eq_refl)) as [m0 [H0 B]].
+    unfold orph at 1. assert (existsb (fun m1 => bound m1 x) (map g ms) = true) as ->.
+    { apply existsb_exists. exists (g m0). split; [apply in_map; exact H0 | exact B]. }
+    cbn [negb]. apply IH. intros z Hz. apply Hx. right. exact Hz. }
+  rewrite (E extra Hex). clear E. cbn [length]. rewrite Nat.add_0_r.
+  assert (H : length (filter (orph (map g ms)) (ids (c_ents c))) <= length (filter (orph ms) (ids (c_ents c))) + length (filter (fun _ => false) (ids (c_ents c)))).
+  { apply count_le_lost. intros x _ Ho. left. unfold orph in *. apply negb_true_iff in Ho. apply negb_true_iff.
+    destruct (existsb (fun m0 => bound m0 x) ms) eqn:Ex; [|reflexivity]. exfalso.
+    apply existsb_exists in Ex. destruct Ex as [m0 [H0 B]].
+    assert (existsb (fun m1 => bound m1 x) (map g ms) = true); [|congruence].
+    apply existsb_exists. exists (g m0). split; [apply in_map; exact H0 | apply Hb; assumption]. }
+  assert (Z : forall l : list nat, length (filter (fun _ : nat => false) l) = 0) by (induction l; [reflexivity | assumption]).
+  rewrite Z in H. lia.
+Qed.
